@@ -460,3 +460,35 @@ func keepImage(im *Image, res *Result) {
 		res.Extra["image_dir"] = dir
 	}
 }
+
+// explainDiskRead: a Reader opened from the live directory holds some abstract
+// state the index went through, containing every batch acknowledged before it
+// was opened.
+func (r *Run) explainDiskRead(c *Content, win int) string {
+	if msg := CompareModelDocs(c, r.stored); msg != "" {
+		return msg
+	}
+	acked := r.ackedBefore(win)
+	key := c.Key()
+	var lacking []int
+	for _, e := range r.chain.entries {
+		if e.Key != key {
+			continue
+		}
+		ok := true
+		for _, n := range acked {
+			if !e.Applied.has(n) {
+				ok = false
+				lacking = append(lacking, n)
+				break
+			}
+		}
+		if ok {
+			return ""
+		}
+	}
+	if len(lacking) > 0 {
+		return fmt.Sprintf("a Reader opened from the directory in window %d holds %s, a state that lacks acknowledged batch(es) %v", win, key, lacking)
+	}
+	return fmt.Sprintf("a Reader opened from the directory in window %d holds %s, which is not the abstract index after any prefix of the applied batches", win, key)
+}
